@@ -46,6 +46,18 @@ func rewriteImport(file, from, to, name string) (src []byte, changed bool, err e
 		if p != from {
 			continue
 		}
+		if name == "" {
+			// keep whatever local name the file uses
+			if im.Name != nil && (im.Name.Name == "." || im.Name.Name == "_") {
+				return nil, false, fmt.Errorf("%s imports %q as %q: facade cannot cover it", file, from, im.Name.Name)
+			}
+			if im.Name == nil {
+				im.Name = ast.NewIdent(filepath.Base(from))
+			}
+			im.Path.Value = strconv.Quote(to)
+			changed = true
+			continue
+		}
 		if im.Name != nil && im.Name.Name != name {
 			return nil, false, fmt.Errorf("%s imports %q as %q: facade cannot cover it", file, from, im.Name.Name)
 		}
@@ -330,6 +342,34 @@ func CLI(repo, verif, scratch string) (*Overlay, error) {
 				return nil, err
 			}
 			o.Replace[f] = dst
+			cur = dst
+		}
+		// third seam: catchable signals
+		src3, changed3, err := rewriteImport(cur, "os/signal", "github.com/tdewolff/minify/v2/verifsignal", "signal")
+		if err != nil {
+			return nil, err
+		}
+		if changed3 {
+			dst := filepath.Join(scratch, "cli3_"+filepath.Base(f))
+			if err := os.WriteFile(dst, src3, 0o644); err != nil {
+				return nil, err
+			}
+			o.Replace[f] = dst
+			cur = dst
+		}
+		// fourth seam: locks (the pinned command has none; a tree that adds one must not stall
+		// the simulation: a goroutine waiting for a sync.Mutex is not "durably blocked" for
+		// synctest, one polling on the fake clock is)
+		src4, changed4, err := rewriteImport(cur, "sync", "github.com/tdewolff/minify/v2/verifsync", "")
+		if err != nil {
+			return nil, err
+		}
+		if changed4 {
+			dst := filepath.Join(scratch, "cli4_"+filepath.Base(f))
+			if err := os.WriteFile(dst, src4, 0o644); err != nil {
+				return nil, err
+			}
+			o.Replace[f] = dst
 		}
 	}
 	if rewritten == 0 {
@@ -348,6 +388,12 @@ func CLI(repo, verif, scratch string) (*Overlay, error) {
 		return nil, err
 	}
 	if err := mapDir(o, filepath.Join(verif, "overlaysrc", "verifio"), filepath.Join(repo, "verifio")); err != nil {
+		return nil, err
+	}
+	if err := mapDir(o, filepath.Join(verif, "overlaysrc", "verifsignal"), filepath.Join(repo, "verifsignal")); err != nil {
+		return nil, err
+	}
+	if err := mapDir(o, filepath.Join(verif, "overlaysrc", "verifsync"), filepath.Join(repo, "verifsync")); err != nil {
 		return nil, err
 	}
 	return o, nil
